@@ -13,8 +13,8 @@ def NOT_REPRODUCED(msg=''):
     print('not reproduced', msg); sys.exit(0)
 
 
-p = Path(QuadraticBezier(0j, 0j, 0j), QuadraticBezier(0j, (-7.450580596923828e-09+0j), (1+0j)), Line(0j, (1+0j)))
-opts = dict(useSandT=True, use_closed_attrib=False, rel=False)
+p = Path(Arc((-40+1j), (1+1j), -40.0, True, False, (-40+2j)), QuadraticBezier((-40+2j), 0j, (-40+2j)), Line((-40+2j), (-40+1j)))
+opts = dict(useSandT=False, use_closed_attrib=True, rel=False)
 d = p.d(**opts)
 try:
     q = parse_path(d)
